@@ -14,7 +14,7 @@ MODULES = {
     'C15': ['C15'], 'C16': ['C16', 'C16b'], 'C17': ['C17'], 'C18': ['C18'], 'C19': ['C19'], 'C20': ['C20'],
 }
 # properties whose proof files are finished and committed (others contribute only their table leaves)
-READY = {'C03', 'C06', 'C04', 'C07', 'C18', 'C08', 'C09', 'C12', 'C13', 'C14', 'C16', 'C19', 'C20'}
+READY = {'C15', 'C03', 'C06', 'C04', 'C07', 'C18', 'C08', 'C09', 'C12', 'C13', 'C14', 'C16', 'C19', 'C20'}
 
 AGREE = {
     'C02': ['Isotp.Agree.NearestFd', 'Isotp.Agree.PadLen'],
